@@ -22,6 +22,10 @@ def check(ctx):
     ctx.run(E.rule_catch_all, "C04.D1", r)
     ctx.run(E.rule_one_callback_per_dequeue, "C04.D2", r)
     ctx.run(R.rule_prune_before_execute, "C04.D3", rr)
+    from . import stalerules as S
+    from .common import rule_pruning_preserves_paths
+    ctx.run(S.rule_ancestor_closure, "C04.D3", rr)
+    ctx.run(rule_pruning_preserves_paths, "C04.D3")
     ctx.run(E.rule_callbacks_only_via_engine, "C04.D2", r, [rr.runcb, rr.stalecb])
     ctx.run(E.rule_first_error, "C04.D1", r)
     ctx.run(R.rule_no_value_on_failure, "C04.D1", rr)
